@@ -107,6 +107,13 @@ func (w writeOnlyFile) Write(p []byte) (int, error)              { return w.ff.W
 func (w writeOnlyFile) WriteAt(p []byte, off int64) (int, error) { return w.ff.WriteAt(p, off) }
 func (w writeOnlyFile) Truncate(n int64) error                   { return w.ff.Truncate(n) }
 
+// noTruncFile is a WriterAt that can neither be read nor truncated (kind 4, CARv1 only: a failed
+// partial write cannot be taken back, as on a plain io.Writer)
+type noTruncFile struct{ ff *faultFile }
+
+func (w noTruncFile) Write(p []byte) (int, error)              { return w.ff.Write(p) }
+func (w noTruncFile) WriteAt(p []byte, off int64) (int, error) { return w.ff.WriteAt(p, off) }
+
 // faultStream is a plain io.Writer (kind 3)
 type faultStream struct {
 	buf    bytes.Buffer
@@ -322,6 +329,13 @@ func runStoreImplX(work string, kind uint64, o wOpts, roots []cid.Cid, faults []
 	case 3:
 		s.stream = &faultStream{faults: faults}
 		s.wc, openErr = storage.NewWritable(s.stream, roots, o.v2()...)
+	case 4:
+		f, err := os.OpenFile(s.path, os.O_RDWR|os.O_CREATE, 0o666)
+		if err != nil {
+			panic(err)
+		}
+		s.ff = &faultFile{f: f, faults: faults}
+		s.wc, openErr = storage.NewWritable(noTruncFile{s.ff}, roots, o.v2()...)
 	}
 	if openErr != nil {
 		return VL{outErr(openErr), VL{}, VB(nil)}
